@@ -135,8 +135,27 @@ func Run(t *testing.T, prop string, seed uint64, tier string, replay *hcommon.Re
 		if slowP > 0 && strings.HasPrefix(site, "chord/") {
 			if t := simrt.Self(); t != nil && strings.HasPrefix(t.Name, slowPrefix) {
 				if draw()&0xffffffff < slowP {
+					// a slow request thread, not a lost request: all stalls of one handler together stay well
+					// below the RPC deadline (a handler that answers after its caller's deadline is the
+					// fault C07 enumerates; the other profiles assume that requests are answered in time)
+					const perTask = 3 * time.Second
+					if t.Local == nil {
+						t.Local = map[string]any{}
+					}
+					spent, _ := t.Local["slow"].(time.Duration)
+					d := time.Duration(draw() % uint64(p.Sched.SlowMax+1))
+					if !strings.HasPrefix(slowPrefix, "rpc:") {
+						spent = 0 // periodic tasks have no caller waiting for them
+					}
+					if spent+d > perTask {
+						d = perTask - spent
+					}
+					if d <= 0 {
+						return 0
+					}
+					t.Local["slow"] = spent + d
 					simrt.Probe("slow_handler_stall")
-					return time.Duration(draw() % uint64(p.Sched.SlowMax+1))
+					return d
 				}
 				return 0
 			}
